@@ -25,14 +25,26 @@ namespace Pack
     ADD-PATH send mode (IsAddPathEnabled(false, family, options)). -/
 structure Opts where
   ext : Bool
-  apFams : List Nat
+  /-- negotiated ADD-PATH mode per family, `MarshallingOption.AddPath[f]`: bit 0 (value 1) =
+      BGP_ADD_PATH_RECEIVE, bit 1 (value 2) = BGP_ADD_PATH_SEND; a family not listed has mode 0 -/
+  apModes : List (Nat × Nat)
 deriving Repr
 
 /-- message.go maxUpdateMessageLength / bgp.go BGPMessage.Serialize cap for UPDATE. -/
 def limit (o : Opts) : Nat := if o.ext then 65535 else 4096
 
 /-- `addpathNLRILen` of packerV4.pack / packerMP.pack. -/
-def ap (o : Opts) (f : Nat) : Nat := if o.apFams.contains f then 4 else 0
+def apMode (o : Opts) (f : Nat) : Nat :=
+  match o.apModes.find? (fun e => e.1 == f) with
+  | some e => e.2
+  | none => 0
+
+/-- `bgp.IsAddPathEnabled(false, f, options)`: the SEND bit of the negotiated mode. Path identifiers
+    are written (NLRI serialisation), budgeted (packers) and kept in the last-action key
+    (CreateUpdateMsgFromPaths wireKey) iff this holds — receive-only (mode 1) does not count. -/
+def apSend (o : Opts) (f : Nat) : Bool := apMode o f / 2 % 2 == 1
+
+def ap (o : Opts) (f : Nat) : Nat := if apSend o f then 4 else 0
 
 structure Attrs where
   key : Nat
